@@ -224,13 +224,14 @@ def configs(tier):
             n = 17 + min(rw, 3) if rw <= 3 else 17
         out.append(dict(rw=(1, rw), n=(n, 0), miu=128, size=4,
                         agf=rw % 2 == 0, acks=rw <= 3, busy=False))
-        out.append(dict(rw=(rw, 1), n=(0, n), miu=128, size=4,
-                        agf=rw % 2 == 1, acks=False, busy=False))
+        if thorough or rw < 15:
+            out.append(dict(rw=(rw, 1), n=(0, n), miu=128, size=4,
+                            agf=rw % 2 == 1, acks=False, busy=False))
     # both directions at once
     pairs = [(a, b) for a in (1, 2, 3) for b in (1, 2, 3)] if thorough \
         else [(1, 1), (2, 1), (2, 2)]
     for rw in pairs:
-        n = (20, 20) if thorough else (4, 4)
+        n = (20, 20) if thorough else ((4, 4) if max(rw) == 1 else (3, 3))
         out.append(dict(rw=rw, n=n if max(rw) == 1 or not thorough
                         else (18, 6), miu=129, size=129,
                         agf=True, acks=False, busy=False))
@@ -238,12 +239,12 @@ def configs(tier):
     for rw in ((1, 1), (2, 2)):
         out.append(dict(rw=rw, n=(5 if thorough else 3, 0), miu=128, size=2,
                         agf=False, acks=True, busy=True))
-        out.append(dict(rw=rw, n=(3 if thorough else 2, 2), miu=128, size=2,
-                        agf=True, acks=False, busy=True))
+        out.append(dict(rw=rw, n=(3, 2) if thorough else (2, 1), miu=128,
+                        size=2, agf=True, acks=False, busy=True))
     return out
 
 
-def run_cfg(arg):
+def run_cfg(arg, parallel=False):
     cfg, seed, max_states = arg
     run = Run('C05')
     spec = Spec(cfg)
@@ -254,8 +255,11 @@ def run_cfg(arg):
         run.fail(sig, dict(detail, cfg=cfg, engine='bfs', history=list(hist)),
                  (repr(cfg), tuple(hist)), deviations=len(hist))
     depth = 100000
-    res = bfs.search(spec, depth, seed=seed, on_violation=on_violation,
-                     max_states=max_states)
+    if parallel:
+        res = bfs.psearch(spec, depth, seed=seed, on_violation=on_violation)
+    else:
+        res = bfs.search(spec, depth, seed=seed, on_violation=on_violation,
+                         max_states=max_states)
     for dg in res.digests:
         run.nontrivial.add(dg if isinstance(dg, bytes) else repr(dg).encode())
     out = run.export()
@@ -265,13 +269,20 @@ def run_cfg(arg):
     return out
 
 
+def is_big(cfg):
+    """Configurations whose state space is large enough to be worth a
+    level-parallel search (run one after the other in the parent)."""
+    return max(cfg['rw']) >= 7 or (cfg['busy'] and sum(cfg['n']) >= 4) or \
+        (min(cfg['n']) >= 4) or (min(cfg['n']) >= 2 and cfg['rw'] == (2, 2))
+
+
 def run_into(run, tier, seed):
     cfgs = configs(tier)
     max_states = 400000 if tier == 'thorough' else 60000
     tot = dict(states=0, transitions=0, sound_checks=0, configs=len(cfgs),
                not_exhausted=[], max_depth=0, per_config=[])
-    for res in par.pmap(run_cfg, [(c, seed, max_states)
-                                  for c in par.shuffled(cfgs, seed)]):
+
+    def take(res):
         b = res.pop('bfs')
         run.merge(res)
         run.evaluations += b['transitions']
@@ -280,12 +291,20 @@ def run_into(run, tier, seed):
         tot['sound_checks'] += b['sound_checks']
         tot['max_depth'] = max(tot['max_depth'], b['depth'])
         tot['per_config'].append(dict(rw=b['cfg']['rw'], n=b['cfg']['n'],
+                                      busy=b['cfg']['busy'],
                                       states=b['states'], depth=b['depth'],
                                       exhausted=b['exhausted']))
         if not b['exhausted']:
             tot['not_exhausted'].append(b['cfg'])
+    small = [c for c in cfgs if not is_big(c)]
+    big = [c for c in cfgs if is_big(c)]
+    for res in par.pmap(run_cfg, [(c, seed, max_states)
+                                  for c in par.shuffled(small, seed)]):
+        take(res)
+    for c in big:
+        take(run_cfg((c, seed, max_states), parallel=True))
+    tot['per_config'].sort(key=lambda d: (d['rw'], d['n'], d['busy']))
     run.sample(dict(engine='bfs', example=tot['per_config'][:3]))
-    tot['per_config'].sort(key=lambda d: (d['rw'], d['n']))
     return dict(states=tot['states'], transitions=tot['transitions'],
                 bfs_configs=tot['configs'], bfs_max_depth=tot['max_depth'],
                 bfs_snapshot_vs_replay_checks=tot['sound_checks'],
